@@ -119,8 +119,8 @@ class Gen:
         if x < 0.9 and self.methods:
             name, ar = r.choice(self.methods)
             return "<m:%s>(%s)" % (name, ", ".join(self.lit() for _ in range(ar)))
-        if x < 0.94 and self.vars:
-            return '<v:%s>["key"]' % r.choice(self.vars)
+        # (an index on an arbitrary variable — `x = 1.5; x["key"]` — was generated here at first: it is ill-typed Ruby,
+        # ti gives it no value at all, and the value of the statement before it then becomes the method's result)
         return r.choice(['"s".upcase', "[1, 2].first", '"abc".upcase', "1.to_s", "[1, 2].first", ":a.to_s"])
 
     def assign(self):
